@@ -35,7 +35,7 @@ def components():
     c.append(comp("relaxation.ilu_solve", "amgcl/relaxation/detail/ilu_solve.hpp", "ilu_solve",
                   "amgcl::relaxation::detail::ilu_solve<B>::params", idx=1))
     for r in ("damped_jacobi", "gauss_seidel", "chebyshev", "ilu0", "iluk", "ilut"):
-        # ilut::params::get does not compile on the pinned tree (the ptree argument `p` shadows the member `p`)
+        # ilut::params::get did not compile before 44fb554 (the ptree argument `p` hid the member `p`): kept as a probe
         c.append(comp("relaxation." + r, "amgcl/relaxation/%s.hpp" % r, r, "amgcl::relaxation::%s<B>::params" % r,
                       export="probe" if r == "ilut" else True))
     c.append(comp("relaxation.ilup", "amgcl/relaxation/ilup.hpp", "ilup", "amgcl::relaxation::ilup<B>::params",
